@@ -33,8 +33,27 @@ def run(chk, tier):
     compact_bound(chk, dprog, cfg)
     n = witness.record(chk, "C13", tier)
     chk.floor("R13.5", n, 25, "witness programs for C13 (23 positive, 2 negative)")
+    accepted_corpus(chk)
     chk.trusted += ["rustc's type checker decides each witness", "syn / quote"]
     chk.assumptions += ["definitions outside the witness corpus are covered by the structural rules only"]
+
+
+def accepted_corpus(chk):
+    chk.rule("R13.6", "acceptance at scale: every declaration of the corpus (engines/fixtures: hand-written shapes and the generated combinatorial family of "
+             "tools/gen_fixtures.py -- generics with bounds, defaults, lifetimes and const parameters x skip_type_params / bounds(..) x member type spellings) "
+             "is accepted by the derive and its impl type-checks (rustc's verdict through the driver; nothing is run)")
+    import json as _json
+    try:
+        mirp, srcp = facts.ensure_fixture_facts()
+    except facts.EngineError as e:
+        chk.fail("R13.6", "corpus:type-checks", "engines/fixtures/src", "the derive corpus is rejected: %s" % str(e)[-1500:], None, kind="ENGINE")
+        return
+    d = _json.load(open(mirp))
+    derived = [i for i in d["impls"] if i["trait"] == "scale_info::TypeInfo" and (i.get("expn") or [{}])[0].get("kind") == "Derive"]
+    n = len(derived)
+    g = len([1 for i in derived if d["types"][i["self_ty"]].get("a")])
+    chk.ok("R13.6", "corpus:type-checks", "engines/fixtures/src", "%d derived impls type-check, %d of them generic" % (n, g), None)
+    chk.floor("R13.6", n, 260, "derive inputs in the corpus")
 
 
 @cd.cross_check('R13.1', 'witnesses c13_bounds_attr, c13_bounds_with_where (R13.5)')
